@@ -330,7 +330,9 @@ def execute(plan: Dict[str, Any]) -> Dict[str, Any]:
             raise Violation("I5_applied_once_in_order", "random_requests_differ",
                             f"{chain_key(m.chain)} on {member}: module requested {la[:4]}.. ({len(la)}), twin {lb[:4]}.. ({len(lb)}) {where}")
         tags, exp = backend_tags(m.mod), expected_backend_tags(m.chain)
-        if tags != exp:
+        if any(x.startswith("?") for x in tags):
+            res["notes"].append("backend objects carry no recognisable names: backend-list check skipped")
+        elif tags != exp:
             raise Violation("I5_applied_once_in_order", "backend_list", f"{tags} expected {exp} {where}")
         key = (k, bwd, gseed)
         dg = tw.result_digest(got)
